@@ -76,23 +76,23 @@ theorem mkEdge_weightOK (rows : List Row) (src dst : NodeId) (ty : ETy) (z : Boo
 
 /-- **Weight rule.** Every edge of the graph weighs either the time difference of its
 endpoints or zero, and dependency / synchronisation edges always weigh zero. -/
-theorem C08_edge_weight_rule (rows : List Row) (w : Int × Int) (zl : Bool) :
-    ∀ e ∈ (build rows w zl).2.edges, WeightOK rows e :=
+theorem C08_edge_weight_rule (rows : List Row) (ws : Waits) (w : Int × Int) (zl : Bool) :
+    ∀ e ∈ (build rows ws w zl).2.edges, WeightOK rows e :=
   allEdges_applyAll rows _ _ (fun d _ => mkEdge_weightOK rows _ _ _ _) (by intro e he; cases he)
 
 /-- Every edge of the graph joins the nodes of an emitted descriptor: forwardness of the graph
 reduces to forwardness of what the two loops emit. -/
-theorem C08_forward_of_descs (rows : List Row) (w : Int × Int) (zl : Bool)
-    (h : ∀ d ∈ descs rows (clip rows w) zl, tsOf rows d.src ≤ tsOf rows d.dst) :
-    ∀ e ∈ (build rows w zl).2.edges, Forward rows e :=
+theorem C08_forward_of_descs (rows : List Row) (ws : Waits) (w : Int × Int) (zl : Bool)
+    (h : ∀ d ∈ descs rows (clip rows w) ws zl, tsOf rows d.src ≤ tsOf rows d.dst) :
+    ∀ e ∈ (build rows ws w zl).2.edges, Forward rows e :=
   allEdges_applyAll rows _ _ (fun d hd => by unfold Forward mkEdge; exact h d hd) (by intro e he; cases he)
 
 /-- Hence: in a graph whose edges point forward in time no weight is negative. -/
-theorem C08_weights_nonneg (rows : List Row) (w : Int × Int) (zl : Bool)
-    (hfwd : ∀ e ∈ (build rows w zl).2.edges, Forward rows e) :
-    ∀ e ∈ (build rows w zl).2.edges, 0 ≤ e.weight := by
+theorem C08_weights_nonneg (rows : List Row) (ws : Waits) (w : Int × Int) (zl : Bool)
+    (hfwd : ∀ e ∈ (build rows ws w zl).2.edges, Forward rows e) :
+    ∀ e ∈ (build rows ws w zl).2.edges, 0 ≤ e.weight := by
   intro e he
-  have h1 := (C08_edge_weight_rule rows w zl e he).2
+  have h1 := (C08_edge_weight_rule rows ws w zl e he).2
   have h2 := hfwd e he
   unfold Forward at h2
   rcases h1 with h | h <;> omega
@@ -214,12 +214,20 @@ theorem C08_callstack_edges_forward (rows : List Row) (nodeEv : Int → Bool) (p
 
 /-! ### kernel-loop edges: typed, and forward under the causal hypotheses -/
 
-/-- What the kernel loop may emit for a row, as the property states it. -/
-def KernelDescOK (rows : List Row) (st : KS) (r : Row) (d : Desc) : Prop :=
+/-- What the kernel loop may emit for a row, as the property states it: the kernel's own span; a
+launch-delay edge from the start of the runtime call the kernel is linked to; a kernel-kernel edge
+from the end of the last kernel seen on the same stream; a synchronisation edge from a kernel's end
+to the end of the host call that waited for it (Stream / Context Sync: the last kernel of a stream;
+Event Sync: the kernel launched last before the event was recorded) or to the start of the kernel
+that waited for it (a dependency scheduled by an earlier Stream Wait Event). -/
+def KernelDescOK (rows : List Row) (ws : Waits) (st : KState) (r : Row) (d : Desc) : Prop :=
   (d.ty = .op ∧ d.src = ⟨r.idx, true⟩ ∧ d.dst = ⟨r.idx, false⟩) ∨
   (d.ty = .launch ∧ d.src = ⟨r.link, true⟩ ∧ d.dst = ⟨r.idx, true⟩) ∨
-  (d.ty = .kk ∧ lastOn st r.stream = some d.src ∧ d.dst = ⟨r.idx, true⟩) ∨
-  (d.ty = .sync ∧ d.dst = ⟨r.link, false⟩ ∧ ∃ s, lastOn st s = some d.src)
+  (d.ty = .kk ∧ lastOn st.last r.stream = some d.src ∧ d.dst = ⟨r.idx, true⟩) ∨
+  (d.ty = .sync ∧ d.dst = ⟨r.link, false⟩ ∧ ∃ s, lastOn st.last s = some d.src) ∨
+  (d.ty = .sync ∧ d.dst = ⟨r.link, false⟩ ∧ r.name = "Event Sync" ∧
+      d.src = ⟨linkOf rows (syncPrev rows ws r), false⟩) ∨
+  (d.ty = .sync ∧ d.dst = ⟨r.idx, true⟩ ∧ ∃ s, ksGet st.ksync r.idx = some (some s) ∧ d.src = ⟨s, false⟩)
 
 theorem mem_lastOn_of_mem_map {st : KS} {n : NodeId} (h : n ∈ st.map (·.2)) (hnd : (st.map (·.1)).Nodup) :
     ∃ s, lastOn st s = some n := by
@@ -247,47 +255,97 @@ theorem mem_lastOn_of_mem_map {st : KS} {n : NodeId} (h : n ∈ st.map (·.2)) (
       simp only [lastOn, List.find?_cons, hsx] at hs ⊢
       exact hs
 
-/-- **Edge types join only what they stand for** (kernel loop): a launch-delay edge runs from
-the start of the runtime call the kernel is linked to, to the start of that kernel; a
-kernel-kernel edge from the end of the last kernel seen on the same stream; a synchronisation
-edge from the end of the last kernel of a stream to the end of the waiting host call. -/
-theorem C08_kernel_edge_types (rows clipped : List Row) (q : Int → Option Int) (zl : Bool) (st : KS) (r : Row)
-    (hnd : (st.map (·.1)).Nodup) :
-    ∀ d ∈ (kernelStep rows clipped q zl st r).2, KernelDescOK rows st r d := by
+theorem mem_if {α : Type} {c : Prop} [Decidable c] {a : α} {l1 l2 : List α}
+    (h : a ∈ if c then l1 else l2) : a ∈ l1 ∨ a ∈ l2 := by
+  split at h
+  · exact Or.inl h
+  · exact Or.inr h
+
+theorem ksEndOf_some {clipped : List Row} {ks : KSync} {i : Int} {n : NodeId}
+    (h : ksEndOf clipped ks i = some n) : ∃ s, ksGet ks i = some (some s) ∧ n = ⟨s, false⟩ := by
+  unfold ksEndOf at h
+  split at h
+  · rename_i s hs
+    split at h
+    · exact ⟨s, hs, by simpa using h.symm⟩
+    · cases h
+  · cases h
+
+theorem eventStep_descs (rows clipped : List Row) (ws : Waits) (st : KState) (r : Row) :
+    ∀ d ∈ (eventStep rows clipped ws st r).2,
+      r.name ≠ "Stream Wait Event" ∧
+      d = ⟨⟨linkOf rows (syncPrev rows ws r), false⟩, ⟨r.link, false⟩, .sync, false, -1⟩ := by
   intro d hd
-  simp only [kernelStep] at hd
+  unfold eventStep at hd
   split at hd
+  · cases hd
   · split at hd
-    · obtain ⟨n, hn, rfl⟩ := List.mem_map.mp hd
-      right; right; right
-      refine ⟨rfl, rfl, ?_⟩
-      split at hn
-      · exact mem_lastOn_of_mem_map hn hnd
-      · cases hl : lastOn st r.stream with
-        | none => simp [hl] at hn
-        | some m => simp [hl] at hn; subst hn; exact ⟨r.stream, hl⟩
-    · cases hd
-  · cases hl : lastOn st r.stream with
-    | none =>
-      simp only [hl, List.mem_append, List.mem_singleton] at hd
-      rcases hd with (hd | hd) | hd
-      · subst hd; left; exact ⟨rfl, rfl, rfl⟩
+    · split at hd
       · split at hd
-        · simp at hd; subst hd; right; left; exact ⟨rfl, rfl, rfl⟩
         · cases hd
-      · split at hd
-        · simp at hd; subst hd; right; left; exact ⟨rfl, rfl, rfl⟩
-        · cases hd
-    | some n =>
-      simp only [hl, List.mem_append, List.mem_singleton] at hd
-      rcases hd with (hd | hd) | hd
-      · subst hd; left; exact ⟨rfl, rfl, rfl⟩
-      · split at hd
-        · simp at hd; subst hd; right; left; exact ⟨rfl, rfl, rfl⟩
-        · simp at hd; subst hd; right; right; left; exact ⟨rfl, hl, rfl⟩
-      · split at hd
-        · simp at hd; subst hd; right; left; exact ⟨rfl, rfl, rfl⟩
-        · cases hd
+        · split at hd <;> cases hd
+      · cases hd
+    · rename_i hname
+      split at hd
+      · simp only [List.mem_singleton] at hd
+        exact ⟨by simpa using hname, hd⟩
+      · cases hd
+
+/-- **Edge types join only what they stand for** (kernel loop, including CUDA-event based
+synchronisation). -/
+theorem C08_kernel_edge_types (rows clipped : List Row) (ws : Waits) (q : Int → Option Int) (zl : Bool)
+    (st : KState) (r : Row) (hnd : (st.last.map (·.1)).Nodup) :
+    ∀ d ∈ (kernelStep rows clipped ws q zl st r).2, KernelDescOK rows ws st r d := by
+  intro d hd
+  unfold kernelStep at hd
+  simp only [] at hd
+  split at hd
+  · -- synchronisation records
+    split at hd
+    · rename_i hor
+      obtain ⟨hne, rfl⟩ := eventStep_descs rows clipped ws st r d hd
+      right; right; right; right; left
+      refine ⟨rfl, rfl, ?_, rfl⟩
+      simp only [Bool.or_eq_true, beq_iff_eq] at hor
+      rcases hor with h | h
+      · exact absurd h hne
+      · exact h
+    · split at hd
+      · obtain ⟨n, hn, rfl⟩ := List.mem_map.mp hd
+        right; right; right; left
+        refine ⟨rfl, rfl, ?_⟩
+        split at hn
+        · exact mem_lastOn_of_mem_map hn hnd
+        · cases hl : lastOn st.last r.stream with
+          | none => simp [hl] at hn
+          | some m => simp [hl] at hn; subst hn; exact ⟨r.stream, hl⟩
+      · cases hd
+  · -- kernels
+    generalize hke : ksEndOf clipped st.ksync r.idx = ke at hd
+    simp only [List.mem_append, List.mem_singleton] at hd
+    rcases hd with ((hd | hd) | hd) | hd
+    · subst hd; left; exact ⟨rfl, rfl, rfl⟩
+    · -- GPU -> GPU dependency
+      right; right; right; right; right
+      cases ke with
+      | none => simp at hd
+      | some n =>
+        simp only [List.mem_singleton] at hd
+        subst hd
+        obtain ⟨s, hs, rfl⟩ := ksEndOf_some hke
+        exact ⟨rfl, rfl, s, hs, rfl⟩
+    · rcases mem_if hd with hd | hd
+      · simp only [List.mem_singleton] at hd; subst hd; right; left; exact ⟨rfl, rfl, rfl⟩
+      · cases hl : lastOn st.last r.stream with
+        | none => rw [hl] at hd; cases hd
+        | some n =>
+          rw [hl] at hd
+          rcases mem_if hd with hd | hd
+          · simp only [List.mem_singleton] at hd; subst hd; right; right; left; exact ⟨rfl, hl, rfl⟩
+          · cases hd
+    · rcases mem_if hd with hd | hd
+      · simp only [List.mem_singleton] at hd; subst hd; right; left; exact ⟨rfl, rfl, rfl⟩
+      · cases hd
 
 /-- The sorted endpoint tokens of C03 are non-decreasing in time. -/
 theorem sortToks_time_sorted (po : Int → Bool) {es : List C03.Ev} (wf : C03.WF es) :
